@@ -7,6 +7,8 @@ import Teleport.Gen.Frames
 import Teleport.Lemmas.Reader
 import Teleport.Lemmas.JsonProto
 import Teleport.Lemmas.PbProto
+import Teleport.Lemmas.HttpStatus
+import Teleport.Lemmas.HttpWF
 import Teleport.Drv.TestFilters
 namespace Teleport
 namespace C05
@@ -520,6 +522,152 @@ example : JsonP.NumTok [45, 49, 50] := ⟨by decide, by decide⟩
 
 example : PbP.WFp exMsg := by decide
 -- END json framing
+
+-- BEGIN http framing
+/-! ## httproto (`proto/httproto/httproto.go`, modelled in Model/HttpProto)
+
+`HttpP.pack` writes exactly what `Pack` writes (request / status line, the header block in the sorted
+order of `http.Header.Write`, blank line, entity); `HttpP.unpack` is `Unpack` (line reader, first line,
+header loop, limit check, body, transfer pipe, status entity). The environment `env` holds what is
+registered (filters, their names) and the two library functions that are not modelled (the gzip
+filter, `encoding/json` on a status entity): the theorems hold for every environment that meets the
+stated conditions (`GzOK`: the filter is a gzip filter registered under a clean name, its unpack inverts
+its pack). `WFh` is the decidable supported field set; its boundary was found by running the real code
+(the `_witness` theorems show what happens just outside it). -/
+
+/-- **Round trip.** Every message of the supported field set `WFh` is packed, and unpacking the frame
+    (followed by any bytes `rest`, with any read limit that admits the frame) yields the same
+    sequence number, type, service method, status, body codec, body and transfer-filter list and
+    leaves exactly `rest` unread; the metadata comes back as a permutation of the message's pairs plus
+    the protocol's own header lines (`Arrives`: metadata maps onto HTTP headers, which `Header.Write`
+    sorts), and the size `Unpack` reports is the frame length minus the line ends. For a status that
+    is not OK the hypothesis `hsj` says that the JSON decoder reads the entity `MarshalJSON` wrote
+    (`C05_http_status_entity_ascii` proves it for ASCII texts, for every environment). -/
+theorem C05_http_roundtrip (env : HttpP.Env) (lim plim : Nat) (m : Msg) (rest : Bytes) (hwf : HttpP.WFh m = true)
+    (hgz : ∀ g ∈ m.pipe, HttpP.GzOK env g)
+    (hsj : m.status.code = 0 ∨ HttpP.statusOfJSON env (HttpP.statusJSON m.status) = .ok m.status) :
+    ∃ b, HttpP.pack env plim m = .ok b (HttpP.sizeSet plim b.length) ∧
+      (b.length ≤ lim → b.length < 4294967296 →
+        ∃ o, (HttpP.unpack env lim (b ++ rest)).out = .ok o rest ∧ (HttpP.unpack env lim (b ++ rest)).left = rest ∧
+          HttpP.Arrives m o b.length) :=
+  HttpP.unpack_pack env lim plim m rest hwf hgz hsj
+
+/-- **The status entity of an error response.** `Status.UnmarshalJSON` reads back exactly the status
+    `Status.MarshalJSON` wrote, for every status with an int32 code whose message and cause are ASCII
+    (every byte below 0x80: control bytes travel as `\u00XY`, quotes and backslashes escaped) and whose
+    cause, if present, is not empty — in EVERY environment (the strict decoder of the model answers;
+    non-ASCII text is left to `encoding/json`, i.e. to the hypothesis `hsj` of `C05_http_roundtrip`). -/
+theorem C05_http_status_entity_ascii (env : HttpP.Env) (s : Status) (h : HttpP.asciiStatus s = true) :
+    HttpP.statusOfJSON env (HttpP.statusJSON s) = .ok s :=
+  HttpP.statusOfJSON_ascii env s h
+
+example : HttpP.asciiStatus ⟨404, [110, 34, 92, 10, 0, 127], some [120]⟩ = true := by decide
+
+/-- the round trip without any assumption on the JSON decoder: ASCII status texts. -/
+theorem C05_http_roundtrip_ascii (env : HttpP.Env) (lim plim : Nat) (m : Msg) (rest : Bytes) (hwf : HttpP.WFh m = true)
+    (hgz : ∀ g ∈ m.pipe, HttpP.GzOK env g) (hst : HttpP.asciiStatus m.status = true) :
+    ∃ b, HttpP.pack env plim m = .ok b (HttpP.sizeSet plim b.length) ∧
+      (b.length ≤ lim → b.length < 4294967296 →
+        ∃ o, (HttpP.unpack env lim (b ++ rest)).out = .ok o rest ∧ (HttpP.unpack env lim (b ++ rest)).left = rest ∧
+          HttpP.Arrives m o b.length) :=
+  HttpP.unpack_pack env lim plim m rest hwf hgz (Or.inr (HttpP.statusOfJSON_ascii env m.status hst))
+
+/-- **Frame sync.** Any number of frames of supported messages, back to back and followed by anything,
+    decode to the same sequence of messages and leave exactly what followed (the chunking of the
+    stream is not visible to `Unpack`, which reads through `io.ReadFull`: C05_chunking_irrelevant). -/
+theorem C05_http_stream (env : HttpP.Env) (lim plim : Nat) (ms : List Msg) (hall : HttpP.AllOK env ms) :
+    ∃ frames, HttpP.packAll env plim ms = some frames ∧ frames.length = ms.length ∧
+      ((∀ b ∈ frames, b.length ≤ lim ∧ b.length < 4294967296) → ∀ tail,
+        ∃ outs, HttpP.unpackN env lim ms.length (frames.flatten ++ tail) = some (outs, tail) ∧
+          HttpP.ArrivesAll ms frames outs) :=
+  HttpP.unpackN_packAll env lim plim ms hall
+
+/-- **Size.** For EVERY message `Pack` accepts (inside or outside `WFh`) the recorded size is the
+    length of the frame it wrote — a function of the message alone — unless the limit refuses that
+    size (`SetSize`'s error is dropped by the code: the size stays 0). `Unpack` reports the frame
+    length minus two bytes per line (last conjunct of `Arrives`): the two sizes of one message differ
+    by the line ends, each depends on the message alone. -/
+theorem C05_http_size (env : HttpP.Env) (plim : Nat) (m : Msg) (b : Bytes) (sz : Nat)
+    (h : HttpP.pack env plim m = .ok b sz) : sz = HttpP.sizeSet plim b.length :=
+  HttpP.pack_size env plim m b sz h
+
+/-! Non-vacuity of `C05_http_size`: an OK response is packed and the frame length recorded; under a
+limit of 16 the same frame is written and the size stays 0. -/
+example : (match HttpP.pack HttpP.envNone 4096 { seq := 2147483647, mtype := 5, method := [], status := Status.zero, md := [], codec := 120, body := [1], pipe := [] } with
+    | .ok b sz => sz == b.length && decide (b.length > 60)
+    | _ => false) = true := by
+  decide +kernel
+example : (match HttpP.pack HttpP.envNone 16 { seq := 2147483647, mtype := 5, method := [], status := Status.zero, md := [], codec := 120, body := [1], pipe := [] } with
+    | .ok b sz => sz == 0 && decide (b.length > 60)
+    | _ => false) = true := by
+  decide +kernel
+
+/-! Non-vacuity: a request with metadata and the gzip pipe, an OK response, an error response, the
+empty service method; the toy environment meets `GzOK`. -/
+def exReqH : Msg :=
+  { seq := -7, mtype := 1, method := [47, 97, 47, 98], status := Status.zero,
+    md := [([70, 111, 111], [98, 97, 114, 32, 120]), ([88, 45, 65, 98, 99], [])], codec := 112, body := [0, 255, 10, 13], pipe := [103] }
+def exRespH : Msg :=
+  { seq := 2147483647, mtype := 5, method := [], status := Status.zero, md := [], codec := 120, body := [1], pipe := [] }
+def exBizH : Msg :=
+  { seq := 9, mtype := 2, method := [], status := ⟨404, [110, 102], some [120]⟩, md := [], codec := 106, body := [], pipe := [] }
+example : HttpP.WFh exReqH = true := by decide
+example : HttpP.WFh exRespH = true := by decide
+example : HttpP.WFh exBizH = true := by decide
+example : HttpP.WFh { exReqH with method := [], pipe := [] } = true := by decide
+example : ∀ g ∈ exReqH.pipe, HttpP.GzOK HttpP.envToy g := by
+  intro g hg; simp only [exReqH, List.mem_singleton] at hg; subst hg; exact HttpP.envToy_gz
+example : HttpP.AllOK HttpP.envToy [exReqH, exRespH] := by
+  intro m hm
+  simp only [List.mem_cons, List.not_mem_nil, or_false] at hm
+  rcases hm with rfl | rfl
+  · exact ⟨by decide, by intro g hg; simp only [exReqH, List.mem_singleton] at hg; subst hg; exact HttpP.envToy_gz, Or.inl rfl⟩
+  · exact ⟨by decide, (by intro g hg; cases hg), Or.inl rfl⟩
+example : HttpP.statusOfJSON HttpP.envToy (HttpP.statusJSON exBizH.status) = .ok exBizH.status := by decide
+
+/-- **Outside the supported set: CR/LF in a metadata value** — `Header.Write` replaces them by spaces:
+    the value `a CR LF b` arrives as `a`, two spaces, `b` (the frame stays in sync). -/
+theorem C05_http_value_crlf_witness :
+    HttpP.pairOK ([70, 111, 111], [97, 13, 10, 98]) = false ∧
+    (HttpP.outMsg (HttpP.unpack HttpP.envNone 4096
+      (match HttpP.pack HttpP.envNone 4096 { exRespH with md := [([70, 111, 111], [97, 13, 10, 98])] } with
+       | .ok b _ => b | _ => [])).out).map (·.md) = some [([70, 111, 111], [97, 32, 32, 98])] := by
+  decide +kernel
+
+/-- **Outside the supported set: a metadata key that is one of the protocol's own header names** —
+    `X-Seq: 7` added after the real one overrides the sequence number 5 of the message. -/
+theorem C05_http_reserved_key_witness :
+    HttpP.pairOK ([88, 45, 83, 101, 113], [55]) = false ∧
+    (HttpP.outMsg (HttpP.unpack HttpP.envNone 4096
+      (match HttpP.pack HttpP.envNone 4096 { exRespH with seq := 5, md := [([88, 45, 83, 101, 113], [55])] } with
+       | .ok b _ => b | _ => [])).out).map (·.seq) = some 7 := by
+  decide +kernel
+
+/-- **Outside the supported set: a service method with a space** — the request line is split at
+    spaces: `/a b` arrives as `/a`. And a body codec without a Content-Type (`0`) arrives as `s`. -/
+theorem C05_http_method_space_witness :
+    HttpP.methodOK [47, 97, 32, 98] = false ∧
+    (HttpP.outMsg (HttpP.unpack HttpP.envNone 4096
+      (match HttpP.pack HttpP.envNone 4096 { exReqH with method := [47, 97, 32, 98], md := [], pipe := [], codec := 0 } with
+       | .ok b _ => b | _ => [])).out).map (fun o => (o.method, o.codec)) = some ([47, 97], 115) := by
+  decide +kernel
+
+/-- **Outside the supported set: two filters** — `Pack` applies both and names one in
+    `X-Content-Encoding`: the body arrives still filtered once, with a pipe of one. -/
+theorem C05_http_two_filters_witness :
+    (HttpP.outMsg (HttpP.unpack HttpP.envToy 4096
+      (match HttpP.pack HttpP.envToy 4096 { exRespH with body := [1], pipe := [103, 103] } with
+       | .ok b _ => b | _ => [])).out).map (fun o => (o.body, o.pipe)) = some ([31, 1], [103]) := by
+  decide +kernel
+
+/-- **Outside the supported set, a crash on the sending side**: an error response whose metadata
+    holds `X-Content-Encoding` with a name that is not registered makes `packResponse` call `OnPack`
+    on the nil filter `GetByName` returned: `Pack` panics instead of returning an error. -/
+theorem C05_http_pack_panic_witness :
+    HttpP.pack HttpP.envNone 4096
+      { exBizH with md := [([88, 45, 67, 111, 110, 116, 101, 110, 116, 45, 69, 110, 99, 111, 100, 105, 110, 103], [110, 111])] } = .panic := by
+  decide +kernel
+-- END http framing
 
 end C05
 end Teleport
